@@ -165,10 +165,11 @@ helpers_tbl = cap[0]
 mkpool = lua.eval("""function()
   local t2 = {1, startswith = function() return false end}
   local evil = {replace = function() return t2 end}
-  return {false, 0, -1, 1e308, "", "x", "a\\0b", {}, evil, function() end, true, string.rep("z", 5000), "Template:x"}
+  return {false, 0, -1, 1e308, "", "x", "a\\0b", {}, evil, function() end, true, string.rep("z", 5000), "Template:x",
+          '{"0": {"a": 1}, "1": [1, 2], "00": [3], "k": {"0": {}}}', '[{"0": [1]}, {"2": {"x": null}}]', '{"a": 1'}
 end""")
 pool_t = mkpool()
-pool = [None] + [pool_t[i] for i in range(1, 14)]
+pool = [None] + [pool_t[i] for i in range(1, 17)]
 lpcall = lua.eval("function(f, a, b, c, n) if n == 0 then return pcall(f) elseif n == 1 then return pcall(f, a) "
                   "elseif n == 2 then return pcall(f, a, b) else return pcall(f, a, b, c) end end")
 LUA_TYPES = tuple(getattr(lupa, n) for n in ("_LuaTable", "_LuaFunction", "_LuaObject") if hasattr(lupa, n))
@@ -238,6 +239,29 @@ for _e in _probe_errors:
              f"a {type(_e).__name__} handed to Lua exposes a Python object of type {bad[1]} at {bad[0]}",
              {"exception": type(_e).__name__, "path": bad[0]}, f"{bad[1]}@{type(_e).__name__}")
 
+def walk_result(v, path="", depth=0):
+    """Lua tables are walked (their values may be Python objects put there by the helper)"""
+    if isinstance(v, SCALARS):
+        return None
+    if isinstance(v, LUA_TYPES):
+        if depth < 6 and hasattr(v, "items"):
+            try:
+                for k_, x_ in list(v.items())[:50]:
+                    b = walk_result(x_, f"{path}[{k_!r}]", depth + 1)
+                    if b is not None:
+                        return b
+            except Exception:
+                pass
+        return None
+    if isinstance(v, tuple):
+        for i_, x_ in enumerate(v):
+            b = walk_result(x_, f"{path}[{i_}]", depth + 1)
+            if b is not None:
+                return b
+        return None
+    return path, type(v).__name__
+
+
 nerr = 0
 skipped_helpers = []
 for hname in sorted(helpers_tbl.keys()):
@@ -257,6 +281,14 @@ for hname in sorted(helpers_tbl.keys()):
                     r = lpcall(h, a[0], a[1], a[2], n)
             except Exception as ex:
                 r = (False, ex)
+            if isinstance(r, tuple) and r and r[0] is True:
+                # what a helper RETURNS must be a Lua value, a scalar or a tuple of such: never a Python container
+                for j, rv in enumerate(r[1:]):
+                    bad = walk_result(rv)
+                    if bad is not None:
+                        fail("luaexec:call_set_functions#results-of-helpers-are-lua-values-or-scalars",
+                             f"{hname}(...) returns a Python object of type {bad[1]} at result{bad[0]}",
+                             {"helper": hname, "args": [repr(x)[:60] for x in args], "path": bad[0]}, f"{bad[1]}@{hname}")
             if isinstance(r, tuple) and r and r[0] is False and isinstance(r[1], BaseException):
                 nerr += 1
                 bad = walk_error(r[1])
